@@ -43,5 +43,9 @@ claim("C14", EFF + "; queries on the load transaction: Root fields written vs. r
       "Decides for every failure point at once (any error return of any function inside ParseReader / AddTypes) that everything the transaction writes into the Root itself is saved and restored under err != nil alone, that the tables it works on are fresh duplicates, and enumerates every write into an object that may pre-date the call. The Root.schema leak found this way was repaired (6576018); in-place merging of extend blocks (six Extend implementations) is a genuine defect that needs copy-on-extend and is listed as known finding per implementation.",
       TB)
 
-for p in ["C03","C05","C07","C13","C15","C16","C17","C18"]:
+claim("C17", "table agreement over the type-checked AST (constructor field-name sets vs. case-constant sets of every serving Resolve, frozen case->member table with member-type check), static types of list-valued results, effect analysis of the Resolve methods, AST polarity rule for the deprecation filter, SSA rule for __type null",
+      "Decides for all schemas at once that every introspection field of every __ type is served by every Go type that can stand behind it, by the member it names, that list results stay inside the library's own list handling whatever resolver strategy the application uses, that introspection is read-only, and that deprecation filtering is uniform. Three genuine defects found by these rules were repaired (interfaces as []Type, wrapper description = kind, Interface ignoring includeDeprecated).",
+      TB)
+
+for p in ["C03","C05","C07","C13","C15","C16","C18"]:
     na(p, "rules designed (DESIGN.md section 4) but not yet implemented in the checker at this commit; will be claimed once its rule set runs clean")
